@@ -157,7 +157,7 @@ def burst_scripts():
     out.append(lines + ["sync", "close"])
     lines = ["reset mode=out seed=308 hs=1 ack=1"]
     for k in range(50):
-        lines.append("raw L=%d valid=1 seed=%d" % (64 * (k % 4) + (k % 3) - 1 if k else 0, 950 + k))
+        lines.append("raw L=%d valid=1 seed=%d" % (max(0, 64 * (k % 4) + (k % 3) - 1), 950 + k))
         if k % 10 == 9:
             lines.append("send from=A n=%d seed=%d" % (k, k))
     out.append(lines + ["sync", "close"])
